@@ -152,6 +152,13 @@ def instance_of(draw, schema, depth=0):
             # lengths around the tuple boundary: additionalItems applies from len(items) on
             n = draw(st.sampled_from([max(len(items) - 1, 0), len(items), len(items), len(items) + 1,
                                       len(items) + 2]))
+        if s.get("uniqueItems") and draw(st.integers(0, 3)) == 0:
+            # duplicates that differ only in the ORDER of object members (at any depth)
+            base = draw(instance_of(items if isinstance(items, dict) else {}, depth + 1))
+            if not (isinstance(base, (dict, list)) and jv.reordered(base) is not None):
+                base = draw(st.sampled_from([{"a": 1, "b": 2}, {"a": {"x": 1, "y": [2]}, "b": None}, [{"k": 1, "l": 2}]]))
+            return [base, draw(jv.scalars), jv.reordered(base)][:draw(st.integers(2, 3))][::draw(st.sampled_from([1, -1]))] \
+                if draw(st.booleans()) else [base, jv.reordered(base)]
         if s.get("uniqueItems") and items in (True, {}) and draw(st.booleans()):
             # uniqueness over nested containers and bool/number lookalikes at depth
             pool = [[1], [True], [1.0], [[1]], [[True]], [[1], [2]], [[[1]]], [[[2]]], {"a": 1}, {"a": True},
@@ -277,6 +284,9 @@ def perturb(draw, value, depth=0):
             alts = jv.lookalike(dup)
             if alts and draw(st.booleans()):
                 dup = draw(st.sampled_from(alts))
+            elif draw(st.booleans()):
+                # the same JSON value with its object members written in the opposite order (objects are unordered)
+                dup = jv.reordered(dup)
             return v + [dup]
         if op == 3 and len(v) > 1:
             return list(reversed(v))
